@@ -516,6 +516,15 @@ pub fn generate(profile: &str, variant: &str, seed: u64, index: u64) -> SimScena
         }
     };
 
+    // mprotect faults: the first / the second mprotect call of an installation is refused (one-shot)
+    let mprotect_faults = |rng: &mut Rng, pol: &mut PolicySpec, classes: &mut Vec<String>, n_ops: u64| {
+        if rng.chance(1, 10) {
+            let second = rng.chance(1, 2);
+            let ord = rng.below(n_ops.max(1));
+            pol.fail_mprotect = vec![if second { 3000 + ord } else { ord }];
+            classes.push(if second { "k-mprotect-fail-second-call".into() } else { "k-mprotect-fail".into() });
+        }
+    };
     match profile {
         // ------------------------------------------------------------------------------ C01
         "C01" | "C13" | "C10" => {
@@ -593,6 +602,7 @@ pub fn generate(profile: &str, variant: &str, seed: u64, index: u64) -> SimScena
             opts.base_class = Some(*rng.pick(&[0, 1, 1, 2, 3]));
             opts.hood_class = Some(*rng.pick(&[0, 1, 2, 2, 2, 2, 3]));
             buggify_kernel(&mut rng, &mut pol, &mut classes, true);
+            mprotect_faults(&mut rng, &mut pol, &mut classes, 2);
             let mut l = gen_layout(&mut rng, arch, os, &pol, &opts);
             // buggify: kernel falls back to chosen places (inside the window although the hint was
             // occupied; exactly at +-range; just outside)
@@ -641,6 +651,9 @@ pub fn generate(profile: &str, variant: &str, seed: u64, index: u64) -> SimScena
             if mode == 3 {
                 buggify_kernel(&mut rng, &mut pol, &mut classes, true);
             }
+            if mode >= 1 {
+                mprotect_faults(&mut rng, &mut pol, &mut classes, 2);
+            }
             let l = gen_layout(&mut rng, arch, os, &pol, &opts);
             let mut ops = Vec::new();
             // position = (index/4) % 4, chunk block = index / 16: 32768 scenarios sweep all 4 x 65536
@@ -671,6 +684,7 @@ pub fn generate(profile: &str, variant: &str, seed: u64, index: u64) -> SimScena
         "C16" => {
             opts.n_targets = 1 + rng.below(3) as usize;
             opts.n_bystanders = rng.below(2) as usize;
+            mprotect_faults(&mut rng, &mut pol, &mut classes, 6);
             let l = gen_layout(&mut rng, arch, os, &pol, &opts);
             let mut ops = Vec::new();
             for _ in 0..(4 + rng.below(12)) {
